@@ -19,6 +19,7 @@ import (
 	"encoding/json"
 	"errors"
 	"fmt"
+	"math"
 	"strconv"
 	"strings"
 )
@@ -349,7 +350,7 @@ func buildExpressionEx(input map[string]interface{}, depth int) (string, bool, e
 				return strconv.Quote(valueType), true, nil
 			case float64:
 
-				return strconv.FormatFloat(valueType, 'f', -1, 64), true, nil
+				return formatJSONNumber(valueType), true, nil
 			case bool:
 				if valueType {
 
@@ -367,6 +368,19 @@ func buildExpressionEx(input map[string]interface{}, depth int) (string, bool, e
 	}
 
 	return "", false, fmt.Errorf("boolean expression cannot be empty")
+}
+
+// formatJSONNumber writes a JSON number as a GRL literal that denotes the same number: an integer literal
+// when the number is integral and fits 64 bits, otherwise the shortest float literal. (An integral number
+// beyond the int64 range written with all its digits would be an out-of-range integer literal, and an
+// integer written in exponent notation would silently become a float.)
+func formatJSONNumber(number float64) string {
+	if number == math.Trunc(number) && math.Abs(number) < 1<<63 {
+
+		return strconv.FormatFloat(number, 'f', -1, 64)
+	}
+
+	return strconv.FormatFloat(number, 'g', -1, 64)
 }
 
 func buildCompoundOperator(o interface{}, depth int, operator string) (string, bool, error) {
@@ -441,7 +455,7 @@ func parseCallOperand(o interface{}) (string, error) {
 		return operandType, nil
 	case float64:
 
-		return fmt.Sprint(operandType), nil
+		return formatJSONNumber(operandType), nil
 	case bool:
 		if operandType {
 
@@ -512,7 +526,7 @@ func parseOperand(o interface{}, noWrap bool, negation bool) (string, error) {
 		return operandType, nil
 	case float64:
 
-		return fmt.Sprint(operandType), nil
+		return formatJSONNumber(operandType), nil
 	case bool:
 
 		if operandType {
